@@ -250,7 +250,7 @@ def occupations(ck, rng, S, nmax):
 
 def run(ck):
     ck.rule = ("systems: crystal pool (chain, ladder, sc, fcc, bcc, hcp, 2-site chain, B2/chain with spectators, two mobile species) x "
-               "(+ always: two-site chain, hcp, diamond, two-site cubic cell, whose jumps connect different basis sites) x superlattice (diagonal and non-diagonal) x cluster cutoff/order x {KRA only, KRA + TS clusters} x {no vacancy, vacancy}; "
+               "(+ always: two-site chain, hcp, diamond, two-site cubic cell, whose jumps connect different basis sites; three-site chain and FCC/HCP hosts with octahedral+tetrahedral interstitials, whose mobile sites form two Wyckoff sets, vacancy on each kind of site, bare vacancy clusters with distinct values) x superlattice (diagonal and non-diagonal) x cluster cutoff/order x {KRA only, KRA + TS clusters} x {no vacancy, vacancy}; "
                "integer values (even cluster values, integer KRA/TS) for the exact tiers, random floats for the float tier. "
                "Occupations: all 2^n when n <= 8 (quick) / 11 (thorough) free sites, else random at several fillings. Systems on which a "
                "cluster is wrapped onto itself (decided by the Coq checker inj_okb) are outside the domain: evaluated, counted, not judged. "
@@ -266,7 +266,7 @@ def run(ck):
     items, meta = [], []
     nforced = 0
     nsys, skipped = 0, {"wrapped-cluster(out of domain)": 0, "too-large": 0, "no-jumps": 0}
-    budget = ck.n(16, 110)
+    budget = ck.n(12, 100)
     outdom_viol = 0
     # crystals with several mobile sites per cell whose jumps connect DIFFERENT basis indices (the initial- and final-site
     # halves of the barrier expansion then use different cluster lists): always part of the run, every variant
@@ -281,12 +281,24 @@ def run(ck):
         jobs.append((name, setup, sup, False, True, True))
         jobs.append((name, setup, sup, True, True, True))
         jobs.append((name, setup, sup, bool(k % 2), False, True))
-    nmulti = len(jobs)
+    jobs = [j + (None,) for j in jobs]
+    # mobile sites in two or more Wyckoff sets connected by the jump network, vacancy on every kind of site: the bare
+    # (vacancy site only) vacancy clusters then have different values at the two ends of a jump and enter the barrier
+    wyck = [("chain3", (0.45, 2, 0.35), (4, 1, 1), (0, 1, 2)), ("chain3", (0.75, 3, 0.45), (5, 1, 1), (1, 2)),
+            ("fccot", (0.45, 2, 0.45), [[-1, 1, 1], [1, -1, 1], [1, 1, -1]], (0, 1)), ("fccot", (0.45, 2, 0.45), (2, 2, 2), (2, 0)),
+            ("hcpot", (0.62, 2, 0.62), (2, 2, 1), (0, 3))]
+    if not ck.quick:
+        wyck += [("fccot", (0.51, 3, 0.45), (2, 2, 2), (0, 1, 2)), ("hcpot", (0.62, 2, 0.62), (2, 2, 2), (1, 2, 5)),
+                 ("chain3", (0.75, 3, 0.45), (4, 1, 1), (0, 1, 2)), ("fccot", (0.51, 3, 0.45), [[-1, 1, 1], [1, -1, 1], [1, 1, -1]], (0, 2))]
+    for k, (name, setup, sup, vis) in enumerate(wyck):
+        for n, vi in enumerate(vis):
+            jobs.append((name, setup, sup, True, (n + k) % 2 == 0, True, vi))
+        jobs.append((name, setup, sup, False, True, True, None))
     for name, setup, sup in plan:
-        jobs.append((name, setup, sup, rng.random() < 0.5, rng.random() < 0.6, False))
-    for name, setup, sup, vac, ts, forced in jobs:
+        jobs.append((name, setup, sup, rng.random() < 0.5, rng.random() < 0.6, False, None))
+    for name, setup, sup, vac, ts, forced, vi in jobs:
         if not forced and nsys >= budget: break
-        S = mcsys.build(rng, name, setup, sup, vacancy=vac, jumps=True, ts=ts)
+        S = mcsys.build(rng, name, setup, sup, vacancy=vac, jumps=True, ts=ts, vac_index=vi)
         if S is None: skipped["no-jumps"] += 1; continue
         if len(S.MC.interactvalue) > (ck.n(5000, 9000) if forced else ck.n(2500, 7000)): skipped["too-large"] += 1; continue
         if forced: nforced += 1
